@@ -681,7 +681,7 @@ def main():
     checked = paths = muts = validated = groups = 0
     for (f, arg, name), (st, val) in zip(work, results):
         if st != "ok":
-            run.inconc(f"{name}: job {st} {str(val)[:300] if val else ''}")
+            run.job_failed(name, st, val)
             continue
         run.add_stats(val["stats"])
         checked += val["checked"]
